@@ -28,191 +28,7 @@ func runC12(c *Ctx) {
 	R.Rule("reverse-walk", "i from 0 up, j from len-1 down, swap s[i],s[j], while i < len/2", 1)
 	R.Rule("grow", "Grow = append(slice, make(S, n)...)", 1)
 
-	sliceLo := func(t *Term) (*Term, *Term, bool) { // base, lo ; only open-ended s[lo:]
-		if t.Op != "slice" || t.Args[2].Op != "none" || t.Args[3].Op != "none" {
-			return nil, nil, false
-		}
-		lo := t.Args[1]
-		if lo.Op == "none" {
-			lo = intConst(0)
-		}
-		return t.Args[0], lo, true
-	}
-	// ---- insertions
-	for _, ins := range []struct {
-		name  string
-		multi bool
-	}{{"slices.Insert", false}, {"slices.InsertSlice", true}} {
-		rule := "shift-distance"
-		fi := c.fn(rule, ins.name)
-		ps := c.paths(rule, fi)
-		if ps == nil {
-			continue
-		}
-		ptr, index, val := paramOf(fi, 0), paramOf(fi, 1), paramOf(fi, 2)
-		ok, why := len(ps) == 1, "the function branches (a path that skips the growth or the shift must be justified separately)"
-		if ok {
-			p := ps[0]
-			var grown *Term
-			var growIdx int
-			var copies []*Event
-			var elemStores []*Event
-			for i := range p.Events {
-				e := &p.Events[i]
-				switch {
-				case e.Kind == "store" && e.Addr.Key() == ptr.Key():
-					if grown != nil {
-						ok, why = false, "stores *slice twice"
-					}
-					grown, growIdx = e.Val, i
-				case e.Kind == "call" && e.Name == "builtin.copy":
-					copies = append(copies, e)
-				case e.Kind == "store" && e.Addr.Op == "iaddr" && e.Addr.Args[0].Op == "alloc":
-				case e.Kind == "store" && e.Addr.Op == "iaddr":
-					elemStores = append(elemStores, e)
-				case e.Kind == "call" && (e.Name == "builtin.append" || e.Name == "builtin.len"):
-				default:
-					ok, why = false, "unexpected effect "+e.String()
-				}
-			}
-			if ok && grown == nil {
-				ok, why = false, "*slice is never grown"
-			}
-			var g *Poly
-			if ok {
-				old := &Term{Op: "load", Args: []*Term{ptr}}
-				if !(grown.Op == "builtin" && grown.Sym == "append" && len(grown.Args) == 2 && grown.Args[0].Op == "load" && grown.Args[0].Args[0].Key() == ptr.Key()) {
-					ok, why = false, "*slice is not grown with append(*slice, ...): "+grown.String()
-				} else if ins.multi {
-					if grown.Args[1].Key() != val.Key() {
-						ok, why = false, "does not append the values"
-					}
-					g = ToPoly(&Term{Op: "builtin", Sym: "len", Args: []*Term{val}})
-				} else {
-					g = polyConst(1)
-				}
-				_ = old
-			}
-			if ok {
-				// shift copy: first copy after growth
-				var shift *Event
-				for _, cp := range copies {
-					for i := range p.Events {
-						if &p.Events[i] == cp && i > growIdx && shift == nil {
-							shift = cp
-						}
-					}
-				}
-				if shift == nil {
-					ok, why = false, "no shifting copy after the growth"
-				} else {
-					db, dlo, ok1 := sliceLo(shift.Args[0])
-					sb, slo, ok2 := sliceLo(shift.Args[1])
-					switch {
-					case !ok1 || !ok2:
-						ok, why = false, "the shifting copy is not of the form copy(s[a:], s[b:])"
-					case db.Key() != grown.Key():
-						ok, why = false, "the shifting copy does not write into the slice after growth (the stale header is one element short, or no longer the same array)"
-					case sb.Key() != grown.Key() && !(sb.Op == "load" && sb.Args[0].Key() == ptr.Key() && grown.Args[0].Key() == sb.Key()):
-						ok, why = false, "the shifting copy reads from something other than the slice (before or after growth)"
-					case !ToPoly(slo).Equal(ToPoly(index)):
-						ok, why = false, "the shift's source does not start at index: "+slo.String()
-					case !ToPoly(dlo).Add(ToPoly(slo), -1).Equal(g):
-						ok, why = false, fmt.Sprintf("the shift distance is %s, the slice grew by %s", ToPoly(dlo).Add(ToPoly(slo), -1), g)
-					}
-				}
-			}
-			if ok {
-				if ins.multi {
-					filled := false
-					for _, cp := range copies {
-						db, dlo, ok1 := sliceLo(cp.Args[0])
-						if ok1 && db.Key() == grown.Key() && ToPoly(dlo).Equal(ToPoly(index)) && cp.Args[1].Key() == val.Key() {
-							filled = true
-						}
-					}
-					if !filled || len(copies) != 2 {
-						ok, why = false, "the inserted values are not copied to s[index:]"
-					}
-				} else {
-					if len(elemStores) != 1 || elemStores[0].Addr.Args[0].Key() != grown.Key() || !ToPoly(elemStores[0].Addr.Args[1]).Equal(ToPoly(index)) || elemStores[0].Val.Key() != val.Key() || len(copies) != 1 {
-						ok, why = false, "the value is not written to s[index] of the grown slice"
-					}
-				}
-			}
-		}
-		o := R.Decide(ok, rule, fi.Name, "splice", c.pos(fi), "append; copy(s[index+g:], s[index:]) on the grown slice; write at index", why)
-		if !ok {
-			o.Breaks = "elements after the insertion point are shifted by the wrong distance or from a stale slice: a value is lost or duplicated for some index/capacity"
-		}
-	}
-	// ---- removals
-	for _, rm := range []struct {
-		name  string
-		multi bool
-	}{{"slices.Remove", false}, {"slices.RemoveSlice", true}} {
-		rule := "shift-distance"
-		fi := c.fn(rule, rm.name)
-		ps := c.paths(rule, fi)
-		if ps == nil {
-			continue
-		}
-		ptr, index := paramOf(fi, 0), paramOf(fi, 1)
-		r := polyConst(1)
-		if rm.multi {
-			r = ToPoly(paramOf(fi, 2))
-		}
-		ok, why := len(ps) == 1, "the function branches"
-		if ok {
-			p := ps[0]
-			var cp, st *Event
-			for i := range p.Events {
-				e := &p.Events[i]
-				switch {
-				case e.Kind == "call" && e.Name == "builtin.copy":
-					if cp != nil {
-						ok, why = false, "more than one copy"
-					}
-					cp = e
-				case e.Kind == "store" && e.Addr.Key() == ptr.Key():
-					if st != nil {
-						ok, why = false, "stores *slice twice"
-					}
-					st = e
-				case e.Kind == "call" && e.Name == "builtin.len":
-				default:
-					ok, why = false, "unexpected effect "+e.String()
-				}
-			}
-			if ok && (cp == nil || st == nil) {
-				ok, why = false, "missing the shift or the truncation"
-			}
-			if ok {
-				db, dlo, ok1 := sliceLo(cp.Args[0])
-				sb, slo, ok2 := sliceLo(cp.Args[1])
-				isOld := func(t *Term) bool { return t.Op == "load" && t.Args[0].Key() == ptr.Key() }
-				switch {
-				case !ok1 || !ok2 || !isOld(db) || db.Key() != sb.Key():
-					ok, why = false, "the shift is not copy(s[a:], s[b:]) on *slice"
-				case !ToPoly(dlo).Equal(ToPoly(index)):
-					ok, why = false, "the shift's destination does not start at index"
-				case !ToPoly(slo).Add(ToPoly(dlo), -1).Equal(r):
-					ok, why = false, fmt.Sprintf("the shift distance is %s, %s elements are removed", ToPoly(slo).Add(ToPoly(dlo), -1), r)
-				default:
-					v := st.Val
-					lenOld := &Term{Op: "builtin", Sym: "len", Args: []*Term{db}}
-					if !(v.Op == "slice" && v.Args[0].Key() == db.Key() && (v.Args[1].Op == "none" || v.Args[1].IsConst("0")) && v.Args[2].Op != "none" && v.Args[3].Op == "none" &&
-						ToPoly(v.Args[2]).Equal(ToPoly(lenOld).Add(r, -1))) {
-						ok, why = false, fmt.Sprintf("the slice is not truncated to len-%s: %s", r, v)
-					}
-				}
-			}
-		}
-		o := R.Decide(ok, rule, fi.Name, "splice", c.pos(fi), "copy(s[index:], s[index+r:]); s = s[:len-r]", why)
-		if !ok {
-			o.Breaks = "the wrong elements are dropped or the length shrinks by the wrong amount"
-		}
-	}
+	c12Splice(c, "shift-distance", true)
 	// ---- result-fresh + layout
 	if fi := c.fn("result-fresh", "slices.Concat"); fi != nil {
 		if ps := c.paths("result-fresh", fi); ps != nil {
@@ -497,6 +313,201 @@ func runC12(c *Ctx) {
 			if !ok {
 				o.Breaks = "the appended elements are not zero"
 			}
+		}
+	}
+}
+
+// c12Splice decides the insert/remove primitives (shift distances on the grown slice, truncation); C07 re-uses
+// the single-element rows, on which Sorted.Add/Remove/RemoveAt rest.
+func c12Splice(c *Ctx, rule string, withMulti bool) {
+	R := c.R
+	sliceLo := func(t *Term) (*Term, *Term, bool) { // base, lo ; only open-ended s[lo:]
+		if t.Op != "slice" || t.Args[2].Op != "none" || t.Args[3].Op != "none" {
+			return nil, nil, false
+		}
+		lo := t.Args[1]
+		if lo.Op == "none" {
+			lo = intConst(0)
+		}
+		return t.Args[0], lo, true
+	}
+	// ---- insertions
+	for _, ins := range []struct {
+		name  string
+		multi bool
+	}{{"slices.Insert", false}, {"slices.InsertSlice", true}} {
+		if ins.multi && !withMulti {
+			continue
+		}
+		fi := c.fn(rule, ins.name)
+		ps := c.paths(rule, fi)
+		if ps == nil {
+			continue
+		}
+		ptr, index, val := paramOf(fi, 0), paramOf(fi, 1), paramOf(fi, 2)
+		ok, why := len(ps) == 1, "the function branches (a path that skips the growth or the shift must be justified separately)"
+		if ok {
+			p := ps[0]
+			var grown *Term
+			var growIdx int
+			var copies []*Event
+			var elemStores []*Event
+			for i := range p.Events {
+				e := &p.Events[i]
+				switch {
+				case e.Kind == "store" && e.Addr.Key() == ptr.Key():
+					if grown != nil {
+						ok, why = false, "stores *slice twice"
+					}
+					grown, growIdx = e.Val, i
+				case e.Kind == "call" && e.Name == "builtin.copy":
+					copies = append(copies, e)
+				case e.Kind == "store" && e.Addr.Op == "iaddr" && e.Addr.Args[0].Op == "alloc":
+				case e.Kind == "store" && e.Addr.Op == "iaddr":
+					elemStores = append(elemStores, e)
+				case e.Kind == "call" && (e.Name == "builtin.append" || e.Name == "builtin.len"):
+				default:
+					ok, why = false, "unexpected effect "+e.String()
+				}
+			}
+			if ok && grown == nil {
+				ok, why = false, "*slice is never grown"
+			}
+			var g *Poly
+			if ok {
+				old := &Term{Op: "load", Args: []*Term{ptr}}
+				if !(grown.Op == "builtin" && grown.Sym == "append" && len(grown.Args) == 2 && grown.Args[0].Op == "load" && grown.Args[0].Args[0].Key() == ptr.Key()) {
+					ok, why = false, "*slice is not grown with append(*slice, ...): "+grown.String()
+				} else if ins.multi {
+					if grown.Args[1].Key() != val.Key() {
+						ok, why = false, "does not append the values"
+					}
+					g = ToPoly(&Term{Op: "builtin", Sym: "len", Args: []*Term{val}})
+				} else {
+					g = polyConst(1)
+				}
+				_ = old
+			}
+			if ok {
+				// shift copy: first copy after growth
+				var shift *Event
+				for _, cp := range copies {
+					for i := range p.Events {
+						if &p.Events[i] == cp && i > growIdx && shift == nil {
+							shift = cp
+						}
+					}
+				}
+				if shift == nil {
+					ok, why = false, "no shifting copy after the growth"
+				} else {
+					db, dlo, ok1 := sliceLo(shift.Args[0])
+					sb, slo, ok2 := sliceLo(shift.Args[1])
+					switch {
+					case !ok1 || !ok2:
+						ok, why = false, "the shifting copy is not of the form copy(s[a:], s[b:])"
+					case db.Key() != grown.Key():
+						ok, why = false, "the shifting copy does not write into the slice after growth (the stale header is one element short, or no longer the same array)"
+					case sb.Key() != grown.Key() && !(sb.Op == "load" && sb.Args[0].Key() == ptr.Key() && grown.Args[0].Key() == sb.Key()):
+						ok, why = false, "the shifting copy reads from something other than the slice (before or after growth)"
+					case !ToPoly(slo).Equal(ToPoly(index)):
+						ok, why = false, "the shift's source does not start at index: "+slo.String()
+					case !ToPoly(dlo).Add(ToPoly(slo), -1).Equal(g):
+						ok, why = false, fmt.Sprintf("the shift distance is %s, the slice grew by %s", ToPoly(dlo).Add(ToPoly(slo), -1), g)
+					}
+				}
+			}
+			if ok {
+				if ins.multi {
+					filled := false
+					for _, cp := range copies {
+						db, dlo, ok1 := sliceLo(cp.Args[0])
+						if ok1 && db.Key() == grown.Key() && ToPoly(dlo).Equal(ToPoly(index)) && cp.Args[1].Key() == val.Key() {
+							filled = true
+						}
+					}
+					if !filled || len(copies) != 2 {
+						ok, why = false, "the inserted values are not copied to s[index:]"
+					}
+				} else {
+					if len(elemStores) != 1 || elemStores[0].Addr.Args[0].Key() != grown.Key() || !ToPoly(elemStores[0].Addr.Args[1]).Equal(ToPoly(index)) || elemStores[0].Val.Key() != val.Key() || len(copies) != 1 {
+						ok, why = false, "the value is not written to s[index] of the grown slice"
+					}
+				}
+			}
+		}
+		o := R.Decide(ok, rule, fi.Name, "splice", c.pos(fi), "append; copy(s[index+g:], s[index:]) on the grown slice; write at index", why)
+		if !ok {
+			o.Breaks = "elements after the insertion point are shifted by the wrong distance or from a stale slice: a value is lost or duplicated for some index/capacity"
+		}
+	}
+	// ---- removals
+	for _, rm := range []struct {
+		name  string
+		multi bool
+	}{{"slices.Remove", false}, {"slices.RemoveSlice", true}} {
+		if rm.multi && !withMulti {
+			continue
+		}
+		fi := c.fn(rule, rm.name)
+		ps := c.paths(rule, fi)
+		if ps == nil {
+			continue
+		}
+		ptr, index := paramOf(fi, 0), paramOf(fi, 1)
+		r := polyConst(1)
+		if rm.multi {
+			r = ToPoly(paramOf(fi, 2))
+		}
+		ok, why := len(ps) == 1, "the function branches"
+		if ok {
+			p := ps[0]
+			var cp, st *Event
+			for i := range p.Events {
+				e := &p.Events[i]
+				switch {
+				case e.Kind == "call" && e.Name == "builtin.copy":
+					if cp != nil {
+						ok, why = false, "more than one copy"
+					}
+					cp = e
+				case e.Kind == "store" && e.Addr.Key() == ptr.Key():
+					if st != nil {
+						ok, why = false, "stores *slice twice"
+					}
+					st = e
+				case e.Kind == "call" && e.Name == "builtin.len":
+				default:
+					ok, why = false, "unexpected effect "+e.String()
+				}
+			}
+			if ok && (cp == nil || st == nil) {
+				ok, why = false, "missing the shift or the truncation"
+			}
+			if ok {
+				db, dlo, ok1 := sliceLo(cp.Args[0])
+				sb, slo, ok2 := sliceLo(cp.Args[1])
+				isOld := func(t *Term) bool { return t.Op == "load" && t.Args[0].Key() == ptr.Key() }
+				switch {
+				case !ok1 || !ok2 || !isOld(db) || db.Key() != sb.Key():
+					ok, why = false, "the shift is not copy(s[a:], s[b:]) on *slice"
+				case !ToPoly(dlo).Equal(ToPoly(index)):
+					ok, why = false, "the shift's destination does not start at index"
+				case !ToPoly(slo).Add(ToPoly(dlo), -1).Equal(r):
+					ok, why = false, fmt.Sprintf("the shift distance is %s, %s elements are removed", ToPoly(slo).Add(ToPoly(dlo), -1), r)
+				default:
+					v := st.Val
+					lenOld := &Term{Op: "builtin", Sym: "len", Args: []*Term{db}}
+					if !(v.Op == "slice" && v.Args[0].Key() == db.Key() && (v.Args[1].Op == "none" || v.Args[1].IsConst("0")) && v.Args[2].Op != "none" && v.Args[3].Op == "none" &&
+						ToPoly(v.Args[2]).Equal(ToPoly(lenOld).Add(r, -1))) {
+						ok, why = false, fmt.Sprintf("the slice is not truncated to len-%s: %s", r, v)
+					}
+				}
+			}
+		}
+		o := R.Decide(ok, rule, fi.Name, "splice", c.pos(fi), "copy(s[index:], s[index+r:]); s = s[:len-r]", why)
+		if !ok {
+			o.Breaks = "the wrong elements are dropped or the length shrinks by the wrong amount"
 		}
 	}
 }
